@@ -111,6 +111,9 @@ def main():
         if not meta.get("keep") or det is None:
             continue
         needs = str(meta.get("needs", ""))[:160].replace("|", "/").replace("\n", " ")
+        if det.get("applies") is False:
+            lines.append(f"| {d.name} | {meta['property']} | {needs} | n/a | patch no longer applies at HEAD (the code it edits was changed by a later fix: commit) |")
+            continue
         lines.append(f"| {d.name} | {meta['property']} | {needs} | {'yes' if det.get('caught') else 'NO'} | {', '.join(det.get('caught_by', []))} |")
     (SEEDED / "RESULTS.md").write_text("\n".join(lines) + "\n")
 
